@@ -1036,6 +1036,25 @@ func (d *driver) writeEvidence(ev *evidence, violations int) {
 	if extra := group("cover."); len(extra) > 0 {
 		cov["coverage_counters"] = extra
 	}
+	// reach: counters that fire in every ordinary batch of this check (expected_reach.json, made from a full
+	// quick run on the unchanged tree) and stayed at zero in this one. A gap is a note, not a verdict: it
+	// says that a generator, a fault or an oracle has gone quiet - on a changed tree possibly because the
+	// change removed the path - and that this batch says nothing about what lies behind it.
+	if b, err := os.ReadFile(filepath.Join(d.root, "expected_reach.json")); err == nil && violations == 0 && len(d.only) == 0 {
+		var exp map[string][]string
+		if json.Unmarshal(b, &exp) == nil {
+			gaps := []string{}
+			for _, name := range exp[d.prop] {
+				if ev.stats[name] == 0 {
+					gaps = append(gaps, name)
+				}
+			}
+			cov["reach_expected"], cov["reach_gaps"] = len(exp[d.prop]), gaps
+			if len(gaps) > 0 {
+				fmt.Printf("[%s] note: %d of %d counters that fire in every ordinary batch stayed at zero: %s\n", d.prop, len(gaps), len(exp[d.prop]), strings.Join(gaps, ", "))
+			}
+		}
+	}
 	out := map[string]any{
 		"property_id": d.prop,
 		"tier":        d.tier,
